@@ -385,7 +385,55 @@ func checkRebuiltVote(c *Ctx, fn *ssa.Function, name, wantHeight, wantID, wantNT
 }
 
 // runC05Extra: rules added after independently produced mutants were missed.
+// runC05Third: the key votes are tallied under covers everything a round decision consists of; the
+// part-set holder compares the id it held *before* the replacement.
+func runC05Third(c *Ctx) {
+	const pkg = "consensus"
+	set := c.mustFn(pkg, "voteBase", "SetRoundDecision")
+	dig := c.mustFn(pkg, "voteBase", "RoundDecisionDigest")
+	if set != nil && dig != nil {
+		read := map[string]bool{}
+		for _, b := range dig.Blocks {
+			for _, in := range b.Instrs {
+				if fa, ok := in.(*ssa.FieldAddr); ok && (namedOf(fa.X.Type()) == "voteBase" || namedOf(fa.X.Type()) == "blockVoteBase") {
+					read[faName(fa)] = true
+				}
+			}
+		}
+		n := 0
+		for _, st := range append(fieldStoresAny([]*ssa.Function{set}, "voteBase"), fieldStoresAny([]*ssa.Function{set}, "blockVoteBase")...) {
+			fld := faName(st.Addr)
+			if fld == "decisionDigest" {
+				continue
+			}
+			n++
+			c.check(read[fld], "C05.tally-key", "the round-decision digest covers "+fld, dig.Pos(), "read by RoundDecisionDigest", "SetRoundDecision sets "+fld+" but RoundDecisionDigest does not read it: votes that differ in it fall into one counter, and a +2/3 count is reported for a decision that +2/3 did not sign")
+		}
+		if n < 2 {
+			c.undecided("C05.tally-key", "SetRoundDecision", set.Pos(), fmt.Sprintf("%d decision fields found", n))
+		}
+	}
+	if f := c.mustFn(pkg, "blockPartSet", "SetByPartSetAndBlock"); f != nil {
+		sts := fieldStores([]*ssa.Function{f}, "blockPartSet", "PartSet")
+		ids := c.calls(f, func(cc *ssa.CallCommon) bool {
+			r, _ := callArgs(cc)
+			return methodName(cc) == "ID" && r != nil && strings.HasPrefix(render(r), "$r")
+		})
+		if len(sts) == 0 || len(ids) == 0 {
+			c.undecided("C05.tally-key", "SetByPartSetAndBlock", f.Pos(), fmt.Sprintf("%d stores of the part set, %d reads of the held id", len(sts), len(ids)))
+		} else {
+			for _, id := range ids {
+				for _, st := range sts {
+					_, after := pathAvoiding(f, st.Store, func(in ssa.Instruction) bool { return in == ssa.Instruction(id.Instr) }, func(ssa.Instruction) bool { return false })
+					c.check(!after, "C05.tally-key", "the held part-set id is read before the part set is replaced", id.Pos(), "ID() precedes the store", "the `previous` id is read after the new part set was stored, so it always equals the new one: the validated candidate of the old content is kept for the new content")
+				}
+			}
+		}
+	}
+}
+
 func runC05Extra(c *Ctx) {
+	runC05Third(c)
 	// (a) fast sync: every vote of the delivered list is filed under the validator index of its own signer
 	if pb := c.mustFn("consensus", "consensus", "processBlock"); pb != nil {
 		adds := c.calls(pb, byCallee("heightVoteSet).add"))
